@@ -78,6 +78,7 @@ Qed.
 
 (* every case the harness counts as inside F11 is covered by the theorem *)
 Theorem fragment_flag c : in_F c = true ->
+  build_raises (case_cmodel c) (c_T c) (c_pat c) = false /\
   run_araises (case_cmodel c) (case_world c) (c_T c) (c_pat c) (c_dom c) = false /\
   run_raises (case_cmodel c) (case_world c) (c_T c) (c_pat c) (c_dom c) = false /\
   forall o, In o (run (case_cmodel c) (case_world c) (c_T c) (c_pat c) (c_dom c)) <->
@@ -85,6 +86,7 @@ Theorem fragment_flag c : in_F c = true ->
 Proof.
   unfold in_F. intros H. apply andb_true_iff in H. destruct H as [H Hnn]. apply andb_true_iff in H. destruct H as [H H0]. apply andb_true_iff in H. destruct H as [H Hty].
   apply andb_true_iff in H. destruct H as [HF Htr].
+  split; [apply (no_build_error _ (case_objcls c)); apply (proj1 (proj2 (fok_mono _ _))); exact HF|].
   split; [apply no_attr_error; apply nonone_of_b; exact Hnn|].
   split; [apply (no_error _ (case_objcls c)); apply (proj1 (proj2 (fok_mono _ _))); exact HF|].
   apply (match_run_exact (case_cmodel c) (case_objcls c)); auto using sub_trans_of_b, typed_of_b.
@@ -92,6 +94,7 @@ Qed.
 
 (* ... and every case inside the relaxed fragment (finding C11-e allowed) is answered as the relaxed reading says *)
 Theorem fragment_flag_lax c : in_Flax c = true ->
+  build_raises (case_cmodel c) (c_T c) (c_pat c) = false /\
   run_araises (case_cmodel c) (case_world c) (c_T c) (c_pat c) (c_dom c) = false /\
   run_raises (case_cmodel c) (case_world c) (c_T c) (c_pat c) (c_dom c) = false /\
   forall o, In o (run (case_cmodel c) (case_world c) (c_T c) (c_pat c) (c_dom c)) <->
@@ -99,6 +102,7 @@ Theorem fragment_flag_lax c : in_Flax c = true ->
 Proof.
   unfold in_Flax. intros H. apply andb_true_iff in H. destruct H as [H Hnn]. apply andb_true_iff in H. destruct H as [H H0]. apply andb_true_iff in H. destruct H as [H Hty].
   apply andb_true_iff in H. destruct H as [HF Htr].
+  split; [apply (no_build_error _ (case_objcls c)); exact HF|].
   split; [apply no_attr_error; apply nonone_of_b; exact Hnn|].
   split; [apply (no_error _ (case_objcls c)); exact HF|].
   apply (match_run_lax (case_cmodel c) (case_objcls c)); auto using sub_trans_of_b, typed_of_b.
